@@ -65,7 +65,11 @@ def _run(prop, tier, seed, plan, obs, work, t0, mod):
     native_results = []
     if plan.get('native'):
         tn = time.time()
-        native_results = plan['native']()
+        try:
+            native_results = plan['native']()
+        except Exception as e:  # noqa: BLE001
+            import traceback
+            native_results = [{'name': 'native-checks-crashed', 'ok': False, 'detail': traceback.format_exc()[-1500:]}]
         print(f'  native by-product checks: {len(native_results)} in {time.time() - tn:.1f}s', flush=True)
     results = runner.run_all(obs, work, progress)
     byname = {o.name: o for o in obs}
